@@ -119,6 +119,22 @@ def run_shard(mod, spec, ctx):
                     ctx.count('position round trips')
                     if sym:
                         report(ctx, mod, 'position', g, sym, detail, mod.judge_grid)
+                    elif pos == 'cell' and idx % 3 == 0:
+                        # the same value as an instance of a *subclass* of its type: still that kind of value
+                        from vf import hs as _hs
+                        _hs.SUBCLASS = True
+                        try:
+                            sym, detail, art = mod.judge_grid(g)
+                        finally:
+                            _hs.SUBCLASS = False
+                        ctx.count('subclass-instance round trips')
+                        ctx.cls('subclass', D.kind(n), 'v' + ver)
+                        if sym and sym.split(':')[0] not in ('build-raises',):
+                            ctx.violation({'part': 'position', 'format': mod.FMT, 'position': pos, 'kind': D.kind(n), 'symptom': sym,
+                                           'features': ['subclass-instance', 'ver=' + ver]},
+                                          'value %r built as an instance of a subclass of its type: %s: %s | text %r' % (
+                                              n, sym, detail, (art.get('text') or '')[:200] if isinstance(art.get('text'), str) else art.get('text')),
+                                          {'type': 'grid', 'n': D.enc(g), 'subclass': True})
                     elif not shown and pos == 'dict-value':
                         ctx.sample({'position': pos, 'value': D.enc(n), 'text': art.get('text')})
                         shown = True
@@ -194,7 +210,42 @@ def run_shard(mod, spec, ctx):
                                    'symptom': sym, 'features': ['k=%d' % k, 'single=%s' % single]},
                                   '%s: %s | text %r' % (sym, d2, (a2.get('text') or '')[:200]),
                                   {'type': 'multi', 'ns': [D.enc(n) for n in ns2], 'single': single})
-        ctx.sample({'multi': 'k in 0..3 grids per document, single in {False, True}'})
+        # mode spellings: the MODE_* constants and the accepted aliases must behave alike
+        import hszinc
+        aliases = {'zinc': ['zinc', 'ZINC', 'Zinc', hszinc.MODE_ZINC], 'json': ['json', 'JSON', 'Json', hszinc.MODE_JSON]}[mod.FMT]
+        const = aliases[-1]
+        from vf import hs as _hs
+        for k in (0, 1, 2, 3):
+            ns = []
+            while len(ns) < k:
+                n = gen.grid(r.choice(['2.0', '3.0']), small=True)
+                if all(mod.in_domain(x) for _, x in D.walk(n, 'top')) and not mod.judge_grid(n)[0]:
+                    ns.append(n)
+            gs = [_hs.to_grid(n) for n in ns]
+            try:
+                ref_text = hszinc.dump(gs, mode=const)
+            except Exception:
+                continue
+            for al in aliases[:-1]:
+                for arg in ((gs, 'list'), (tuple(gs), 'tuple')) + (((gs[0], 'grid'),) if k == 1 else ()):
+                    ctx.case('mode-alias', al, k, arg[1])
+                    ctx.count('mode alias comparisons')
+                    try:
+                        t = hszinc.dump(arg[0], mode=al)
+                        ok = (t == (ref_text if arg[1] != 'grid' else hszinc.dump(gs[0], mode=const)))
+                        why = 'text differs: %r vs %r' % (t[:120], ref_text[:120])
+                        if ok:
+                            back = hszinc.parse(t, mode=al, single=False)
+                            ok = isinstance(back, list) and len(back) == (k if arg[1] != 'grid' else 1)
+                            why = 'parse(mode=%r) gave %r grids' % (al, len(back) if isinstance(back, list) else back)
+                    except Exception as e:   # noqa
+                        ok, why = False, 'raised %s: %s' % (type(e).__name__, str(e)[:80])
+                    if not ok:
+                        ctx.violation({'part': 'multi', 'format': mod.FMT, 'position': 'document', 'kind': 'grids', 'symptom': 'mode-alias-differs',
+                                       'features': ['k=%d' % k, 'arg=' + arg[1]]},
+                                      'dump/parse with mode=%r (an accepted spelling of %r) on %d grid(s) given as %s: %s' % (al, const, k, arg[1], why),
+                                      {'type': 'multi', 'ns': [D.enc(n) for n in ns], 'single': False})
+        ctx.sample({'multi': 'k in 0..3 grids per document, single in {False, True}; mode aliases %r' % (aliases,)})
 
 
 def replay(mod, case, ctx):
